@@ -240,7 +240,7 @@ def directed(limit):
             b"-2147483648", b"-2147483649", b"1e+", b"1E", b"-e", b"-e5", b"-+1", b"-1-", b"1e1.5", b"1.5.e3", b"1ee5", b"1eE5",
             b"1e+-5", b"1" * 62, b"1" * 63, b"1" * 64, b"1" * 70, b"-" + b"9" * 62, b"-" + b"9" * 63, b"0." + b"3" * 60, b"0." + b"3" * 61,
             b"0." + b"3" * 62, b"1" * 61 + b"e5", b"1" * 62 + b"e5", b"1" * 60 + b"e+5", b"1" * 61 + b".5", b"1" * 62 + b".",
-            b"1" * 63 + b".", b"5e-1", b"-1.5e+300", b"1e-07", b"123456789012345678", b"0.000001", b"1e23", b"8.5e22"]
+            b"1" * 63 + b".", b"5e0000000", b"1e-00000001", b"1e00000000030", b"1e+0000000000000000000000000000000000000000000000000000005", b"0e999999999", b"0.0e-999999999", b"5e-1", b"-1.5e+300", b"1e-07", b"123456789012345678", b"0.000001", b"1e23", b"8.5e22"]
     for n in nums:
         add(n)
         add(b"[" + n + b"]")
